@@ -130,10 +130,15 @@ def show_dict(d):
     return 'ok ' + ','.join(out)
 
 
+HANGS = [0]          # implementation calls that hit the watchdog in this run
+HANG_CAP = 10        # after that many the run stops feeding the implementation (the verdict is settled)
+
+
 def guarded(fn, show):
     try:
-        return show(core.with_timeout(fn, 5))
+        return show(core.with_timeout(fn, 1 if HANGS[0] else 3))
     except core.Hang:
+        HANGS[0] += 1
         return 'hang'
     except Exception as e:  # noqa: the class name is the observable
         return 'err ' + type(e).__name__
@@ -163,7 +168,7 @@ class C18(Check):
     rule = ('pair lists over plain/special (& = + % space ; # ...)/non-ASCII characters of every UTF-8 length with keys '
             'drawn from a small pool (repeats), encoded by urlencode in four flavours; raw strings from separators, '
             'stray and truncated escapes, overlong/surrogate/out-of-range UTF-8 escapes, damaged valid query strings; '
-            'exhaustive strings over {a & = % +}, {% 4 1 & =}, {% C 3 A 9} up to length 5 (quick) / 7 (thorough); '
+            'exhaustive strings over {a & = % +}, {% 4 1 & =}, {% C 3 A 9} up to length 6 (quick) / 7 (thorough); '
             'through parse_qsl, parse_qsl(setitem=), Request.query, .forms, .params; the encoder model against '
             'urllib.parse; non-trivial = the string contains a separator or an escape')
     assumptions = ['a str holding lone surrogates is outside the model (Lean Char = Unicode scalar value); the generators '
@@ -223,12 +228,22 @@ class C18(Check):
         helpers, Request = self._mods()
         self.stats = st = {}
         out = []
+        HANGS[0] = 0
 
         def bump(k, by=1):
             st[k] = st.get(k, 0) + by
 
+        def spent():
+            """a spinning scanner makes every further case cost a watchdog period: stop early"""
+            if HANGS[0] >= HANG_CAP:
+                st['aborted_after_hangs'] = HANGS[0]
+                return True
+            return False
+
         # 1. structured: pair lists through an encoder
         for _ in range(n):
+            if spent():
+                break
             pairs = gen_pairs(rng)
             qs, flavour = encode_pairs(pairs, rng)
             bump('structured')
@@ -241,6 +256,8 @@ class C18(Check):
             self._lines_for(qs, dict(kind='pairs', pairs=pairs, qs=qs, flavour=flavour), helpers, Request, rng, out)
         # 2. params: query and body together
         for _ in range(n // 3):
+            if spent():
+                break
             p1, p2 = gen_pairs(rng), gen_pairs(rng)
             if rng.random() < .5 and p1 and p2:      # a key on both sides
                 p2 = p2 + [(p1[0][0], gen_text(rng))]
@@ -252,15 +269,19 @@ class C18(Check):
                         dict(kind='params', qs=qs, body=body.decode('latin1'))))
         # 3. malformed raw strings
         for _ in range(n):
+            if spent():
+                break
             qs = gen_raw(rng)
             bump('raw')
             bump('raw_len_%s' % ('0' if not qs else '1-4' if len(qs) < 5 else '5-12' if len(qs) < 13 else '13+'))
             self._lines_for(qs, dict(kind='raw', qs=qs), helpers, Request, rng, out)
         # 4. exhaustive small scope
-        maxlen = 5 if n < 10000 else 7
+        maxlen = 6 if n < 10000 else 7
         for alpha in EXH_ALPHABETS:
             for L in range(0, maxlen + 1):
                 for t in itertools.product(alpha, repeat=L):
+                    if spent():
+                        break
                     qs = ''.join(t)
                     bump('exhaustive')
                     self._lines_for(qs, dict(kind='raw', qs=qs), helpers, Request, rng, out, full=(L <= 4))
@@ -335,7 +356,7 @@ class C18(Check):
                          ('query', lambda: self._request(Request, qs, b'').query),
                          ('forms', lambda: self._request(Request, '', body).forms)):
             try:
-                core.with_timeout(fn, 5)
+                core.with_timeout(fn, 2)
             except core.Hang:
                 return 'hang', f'{name} does not terminate on {qs!r}'
             except Exception as e:  # noqa
@@ -369,7 +390,10 @@ class C18(Check):
             cases.append(('pairs', pairs, rng.choice(['quote_plus', 'quote'])))
         for _ in range(n // 2):
             cases.append(('raw', gen_raw(rng), None))
+        hangs = 0
         for kind, x, fl in cases:
+            if hangs >= 4:           # one class of finding, and every further instance costs a watchdog period
+                break
             evals += 1
             try:
                 bad = self._oracle_pairs(x, fl) if kind == 'pairs' else self._oracle_total(x)
@@ -377,8 +401,11 @@ class C18(Check):
                 bad = ('hang', f'does not terminate on {x!r}')
             except Exception as e:  # noqa
                 bad = (f'raises:{type(e).__name__}', f'{type(e).__name__}: {e} on {x!r}')
+            if bad and bad[0] == 'hang':
+                hangs += 1
             if bad:
                 findings.append(Finding(f'C18:{bad[0]}', bad[1], dict(kind=kind, value=x, flavour=fl)))
+        findings.sort(key=lambda f: len(repr(f.replay['value'])))      # report the smallest input of each class
         return evals, findings
 
     def replay(self, data):
